@@ -173,7 +173,7 @@ func (h *harness) configure() {
 	}
 	h.pBlockEmpty = r.Src.Intn(900, "p_block_empty")
 	h.pDisabledAtCreate = r.Src.Intn(200, "p_disabled_at_create")
-	h.skew = r.Src.Chance(300, "clock_skew")
+	h.skew = r.Src.Chance(500, "clock_skew")
 	r.Cfg("clock_skew", h.skew)
 	h.xlag = os.Getenv("VERIF_POOLCTL_XLAG") != ""
 	r.Cfg("cross_watch_lag", h.xlag)
@@ -413,12 +413,27 @@ func (h *harness) actCreatePool() bool {
 	}
 	name := free[r.Src.Intn(len(free), "pool_name")]
 	pfx := h.cidrs[r.Src.Intn(len(h.cidrs), "pool_cidr")]
+	if r.Src.Chance(450, "pool_cidr_biased") {
+		// prefer a CIDR that overlaps a pool that is already there
+		var ov []netip.Prefix
+		for _, c := range h.cidrs {
+			for _, p := range h.api.sortedPools() {
+				if h.meta[string(p.UID)].pfx.Overlaps(c) {
+					ov = append(ov, c)
+					break
+				}
+			}
+		}
+		if len(ov) > 0 {
+			pfx = ov[r.Src.Intn(len(ov), "pool_cidr_overlapping")]
+		}
+	}
 	disabled := r.Src.Chance(h.pDisabledAtCreate, "pool_disabled")
 	// The API server stamps creation with its own clock, which has second granularity; between two creations it
 	// may not have ticked at all, and with skew enabled (another API server replica) it may even be behind.
 	h.api.clock = h.api.clock.Add([]time.Duration{0, time.Second, 7 * time.Second}[r.Src.Weighted([]int{5, 3, 2}, "clock_tick")])
 	ts := h.api.clock
-	if h.skew && r.Src.Chance(300, "clock_skewed_now") {
+	if h.skew && r.Src.Chance(400, "clock_skewed_now") {
 		ts = ts.Add(-time.Duration(r.Src.Range(1, 3, "clock_skew_s")) * time.Second)
 		r.Fault("apiserver_clock_skew")
 	}
